@@ -65,3 +65,39 @@ prop("C19",
      assumptions=["SPop is not generated (it may return any member, so two runs may legitimately diverge)",
                   "known finding c04-sparse-bucket-key-concatenation: sparse configurations are skipped for histories with prefix-related bucket names (counted)"],
      technique="differential property testing across option sets (rapid)")
+
+CRASH_ASSUMPTIONS = [
+    "process-crash model: every write and mmap store that completed before the crash point is in the file; the in-flight write is applied as one of the listed torn prefixes",
+    "file mutations are observed through the build-tagged hook; after every recorded workload the trace is replayed into an empty directory and compared byte-for-byte with the real directory (hook-coverage self-check, exit 2 on mismatch)",
+    "a restarted process does not share a millisecond with its predecessor (the harness waits 2 ms before a simulated restart)",
+    "known finding sparse-index-files-not-crash-consistent: sparse-mode workloads are run in KeyOnly mode for crash images (counted under excluded)",
+]
+
+prop("C09",
+     level="fault_enumeration", engine="E1+E3",
+     tests=[dict(name="TestC09", quick=250, thorough=2500)],
+     rule="rapid-generated histories (KV in all index modes, lists/sets/sorted sets in KeyVal mode, reads inside transactions so commit-time no-ops occur, reads of a never-written bucket through every read API, exact-fill records, Merge calls, reopen steps, every RWMode/StartFileLoadingMode/sync/segment size 120..1024). Oracle: (i) Open with the same options succeeds after the clean Close; (ii) for RAM index modes every crash image of the recorded file-mutation trace (every event position x torn prefixes of every write at each record-field boundary) is materialised and Open must succeed on it and a full read must not panic. Non-trivial: a workload with more than 3 distinct crash images; inner_enumerations counts the images opened.",
+     assumptions=CRASH_ASSUMPTIONS,
+     technique="record-and-replay crash-point enumeration over rapid-generated workloads")
+
+prop("C10",
+     level="fault_enumeration", engine="E3",
+     tests=[dict(name="TestC10", quick=400, thorough=4000)],
+     rule="rapid-generated workloads of 2-10 steps (write transactions of 1-5 calls over KV in RAM index modes and list/set/sorted-set calls in KeyVal mode, explicit rollbacks, commits that fail because of an oversized entry at a drawn position, reopen steps; FileIO/MMap x sync x segment size). The file-mutation trace is recorded with commit markers and the observation O_i after each returned commit; every crash image (every event position x torn prefixes at every record-field boundary, deduplicated by content) is opened and its full observation must equal O_c (c = commits returned before the crash point) or O_c+1 when a transaction that later committed was in flight. Non-trivial: a crash point strictly inside the Commit of a multi-record transaction or a torn prefix ending inside the 42-byte header.",
+     assumptions=CRASH_ASSUMPTIONS,
+     technique="record-and-replay crash-point enumeration with a recorded-observation oracle")
+
+prop("C16",
+     level="fault_enumeration", engine="E3",
+     tests=[dict(name="TestC16", quick=500, thorough=5000)],
+     rule="rapid-generated pre-merge histories (KV with TTL/deletes and sets; 2-12 steps; segment sizes 120-333 so several files take part; RAM index modes) with Merge calls at drawn points (22% of steps); every crash image at every file-mutation point between Merge's start and return (incl. torn prefixes of the rewrite transactions' records and points between a rewrite and the removal of the old segment) is opened and its observation must equal the observation before Merge. Non-trivial: workload with more than 2 crash points inside Merge.",
+     assumptions=CRASH_ASSUMPTIONS + ["known finding c16-merge-crash-list-zset: list and sorted-set calls are dropped from the workloads (counted under excluded)"],
+     technique="record-and-replay crash-point enumeration inside Merge")
+
+prop("C15",
+     level="exploration",
+     tests=[dict(name="TestC15", quick=800, thorough=8000)],
+     rule="rapid-generated histories (KV with TTL/deletes/overwrites, sets, sorted sets, rollbacks; transactions of 1-4 calls; both RAM index modes; segment sizes 120-333) with Merge at drawn points (18% of steps, so twice in a row and failing '<2 files' merges occur), more writes afterwards and reopen steps incl. a final one. Oracle (differential twin): database A runs the history, database B the same history without the Merge calls; per-call results and the full observation must be identical after every step. Non-trivial: >=1 successful Merge over >=2 segments in a history that deleted, overwrote, expired or rolled back something.",
+     assumptions=["SPop is not generated (non-deterministic by specification)",
+                  "known finding c15-merge-list-duplication: list calls are dropped from the histories (counted under excluded)"],
+     technique="differential twin-database property testing (rapid)")
